@@ -373,6 +373,9 @@ func timeValue(p *path) value {
 	p.assume(st.bvCmp("bvult", sec, st.BVConst(1<<40, 64)), false)
 	if prev, ok := p.ufApps["__now"]; ok && len(prev) > 0 {
 		p.assume(st.bvCmp("bvule", prev[len(prev)-1], sec), false)
+		if p.timeStep > 0 {
+			p.assume(st.bvCmp("bvule", sec, st.bvBin("bvadd", prev[len(prev)-1], st.BVConst(uint64(p.timeStep), 64))), false)
+		}
 	}
 	p.ufApps["__now"] = append(p.ufApps["__now"], sec)
 	const unixToInternal = 62135596800
